@@ -483,10 +483,14 @@ def inline_generator(ex, st, s, gi):
     from .engine import loops_in, Exec
     gen_frame_depth = len(st.frames)
 
+    outer_stack = list(getattr(fr, "func_stack", []))
+
     def handler(st1, val):
         # run the consumer body in the consumer's frame
         genframe = st1.frames.pop()
         h_saved = (fr.yield_handler, fr.loop_prefix, fr.loop_index)
+        h_stack = fr.func_stack
+        fr.func_stack = outer_stack
         fr.yield_handler, fr.loop_prefix, fr.loop_index = saved
         try:
             outs = []
@@ -502,6 +506,7 @@ def inline_generator(ex, st, s, gi):
                     outs.append((st3, o))
         finally:
             fr.yield_handler, fr.loop_prefix, fr.loop_index = h_saved
+            fr.func_stack = h_stack
         return outs
 
     fr.yield_handler = handler
@@ -509,6 +514,7 @@ def inline_generator(ex, st, s, gi):
     fr.loop_prefix = saved[1] + fi.qualname.split(".")[-1] + "."
     fr.loop_index = {id(n): i for i, n in enumerate(loops_in(fi.node))}
     sub = Exec(eng, fr, total=False, modname=fi.module)
+    fr.func_stack = outer_stack + [fi.node]
     try:
         st.frames.append(dict(bound))
         outs = sub.block(st, fi.node.body)
@@ -523,6 +529,7 @@ def inline_generator(ex, st, s, gi):
                 raise _U("break/continue escaping generator")
     finally:
         fr.yield_handler, fr.loop_prefix, fr.loop_index = saved
+        fr.func_stack = outer_stack
     if s.orelse:
         final = []
         for st1, o in res:
